@@ -159,7 +159,7 @@ func c06Err(family, msg string) string {
 
 func genC06(c *Ctx) error {
 	c.ShardSize = 10
-	c.Notes["rule"] = "one deployed token chaincode (TT) next to a second channel (VT); issuer, fee setter, admin and two users. Sequences of 25-45 operations drawn from the union: emit, burn, transfer (fee unset / in TT / in VT, fee address = a user, also the sender), buyToken / buyBack, lock / unlock of token and allowed balances, channelTransferByCustomer / ByAdmin with createCCTransferTo / cancel / commit / delete, swapBegin (both routes) / cancel / robot answer / robot done / user done, the same for multi-swaps (1-3 assets, duplicates, three-part tickers), forced transferBalance by the admin - with amounts 0, 1, balance-1, exactly the balance, balance+1, 2^64+x, 2^256 and random ones, all account pairs incl. self. After every step: error class, every balance of every kind, the total emission in the token metadata, all swap / multi-swap / transfer records. Non-trivial: >= 4 operation families used and >= 8 successful steps. Half of the token operations share their batch with a second, successful transaction that writes nothing (what a rejected operation wrote before it failed must not surface through a neighbour)."
+	c.Notes["rule"] = "one deployed token chaincode (TT) next to a second channel (VT); issuer, fee setter, admin and two users. Sequences of 25-45 operations drawn from the union: emit, burn, transfer (fee unset / in TT / in VT, fee address = a user, also the sender), buyToken / buyBack, lock / unlock of token and allowed balances (also an unlock of one lock by more than it holds while a second lock of the address covers the rest), channelTransferByCustomer / ByAdmin with createCCTransferTo / cancel / commit / delete, swapBegin (both routes) / cancel / robot answer / robot done / user done, the same for multi-swaps (1-3 assets, duplicates, three-part tickers), forced transferBalance by the admin - with amounts 0, 1, balance-1, exactly the balance, balance+1, 2^64+x, 2^256 and random ones, all account pairs incl. self. After every step: error class, every balance of every kind, the total emission in the token metadata, all swap / multi-swap / transfer records. Non-trivial: >= 4 operation families used and >= 8 successful steps. Half of the token operations share their batch with a second, successful transaction that writes nothing (what a rejected operation wrote before it failed must not surface through a neighbour)."
 	n := c.N(100, 1500)
 	for i := 0; i < n; i++ {
 		if err := c06Case(c); err != nil {
@@ -411,6 +411,27 @@ func c06Case(c *Ctx) error {
 					lk = balance.BalanceTypeAllowedLocked
 				}
 				cur = cw.bal(lk, a, map[string]string{"token": "", "allowed": "VT"}[famName])
+			}
+			if !unlock && cur.Cmp(big.NewInt(10)) > 0 && cur.IsInt64() && rng.Intn(3) == 0 {
+				// two locks on one address, then an unlock of the first by more than it holds but no more than both hold
+				// together: not funded by THAT lock
+				famT := map[string]string{"token": "FTok", "allowed": "FAllowed"}[famName]
+				a1, a2 := 1+rng.Int63n(cur.Int64()/3), 1+rng.Int63n(cur.Int64()/3)
+				for k, st := range []struct {
+					fn  string
+					kd  string
+					id  int
+					amt int64
+				}{{"lock", "LLock", 7, a1}, {"lock", "LLock", 8, a2}, {"unlock", "LUnlock", 7, a1 + 1 + rng.Int63n(a2)}} {
+					fn := map[string]string{"locktoken": "lockTokenBalance", "lockallowed": "lockAllowedBalance", "unlocktoken": "unlockTokenBalance", "unlockallowed": "unlockAllowedBalance"}[st.fn+famName]
+					req := &fpb.BalanceLockRequest{Id: "L" + strconv.Itoa(st.id), Address: a.AddrString(), Token: tokS, Amount: strconv.FormatInt(st.amt, 10), Reason: "r"}
+					data, _ := json.Marshal(req)
+					msg := tokRun(w.AdminAcc, fn, string(data))
+					record("lock", fmt.Sprintf("ULock (%s %s %d %d %d %d %s)", st.kd, famT, w.AdminAcc.N(), st.id, a.N(), tokNum, coqZ(big.NewInt(st.amt))), msg, "None")
+					_ = k
+				}
+				c.Count("unlock_beyond_its_lock_within_the_locked_total")
+				break
 			}
 			amt := edgeAmount(c, cur)
 			sender := w.AdminAcc
